@@ -34,7 +34,10 @@
 #include <netinet/in.h>
 #include <arpa/inet.h>
 #include <stddef.h>
+#include <netdb.h>
+#include <limits.h>
 #include "uv.h"
+#include "uv-common.h"   /* uv__get_internal_fields(loop)->iou: the io_uring ring (completion queue, in_flight) */
 
 /* ------------------------------------------------------------------ virtual clock */
 static uint64_t vclock_ms = 1000;
@@ -64,7 +67,9 @@ typedef struct {
   int dupfd;          /* tcp/udp/pipe: a dup of the socket kept open by the application (the open file outlives uv_close) */
   char path[400];     /* pipe */
 } hent;
-typedef struct { int kind; int state; void* ptr; int handle; } rent;   /* kind 0 = work, 1 = udp_send */
+typedef struct { int kind; int state; void* ptr; int handle; int aux; } rent;   /* kind 0 = work, 1 = udp_send, 2 = connect, 3 = work_nocb, 4 = udp_send_nocb, 5 = write, 6 = fs, 7 = getaddrinfo, 8 = getnameinfo, 9 = random */
+#define POOLKIND(k) ((k) == 0 || (k) == 3 || ((k) >= 6 && (k) <= 9))
+#define GATED(k) ((k) == 0 || (k) == 3)      /* only uv_queue_work's work_cb waits for the poller */
 static hent H[MAXH]; static int nh;
 static rent R[MAXR]; static int nr;
 typedef struct { char key; int id, occ; char* ops; } sent;
@@ -118,8 +123,10 @@ static int complete_works(void) {
   int n = (pool_running >= 0) + pool_qn;
   if (n == 0) return 0;
   int c0 = wq_count();   /* cancelled items already sit there; the loop thread is parked, so the queue only grows */
+  int g = (pool_running >= 0);   /* tickets only for the items that wait for one (fs / getaddrinfo / random work runs through) */
+  for (int i = 0; i < pool_qn; i++) if (GATED(R[pool_q[i]].kind)) g++;
   pthread_mutex_lock(&gm);
-  tickets += n;
+  tickets += g;
   pthread_cond_broadcast(&gc);
   pthread_mutex_unlock(&gm);
   for (int i = 0; i < 100000 && wq_count() < c0 + n; i++) usleep(50);
@@ -175,10 +182,40 @@ static void join_helpers(void) { for (int i = 0; i < nhelpers; i++) pthread_join
 
 /* children that have been spawned and not yet reported: make their exit visible before the poller looks */
 static void await_children(void);
+static void drain_sink(void);
 
 /* ------------------------------------------------------------------ epoll wrapper */
+/* ------------------------------------------------------------------ io_uring ring of the loop */
+struct h_cqe { uint64_t user_data; int32_t res; uint32_t flags; };
+static int ridof(void* p);
+static struct uv__iou* IOU(void) { return &uv__get_internal_fields(LP)->iou; }
+static int ring_wait_broken;
+/* hold the poller until every request in flight in the ring has its completion entry (bounded: a request that was
+ * counted but never submitted has none) */
+static void await_ring(void) {
+  struct uv__iou* iou = IOU();
+  if (iou->ringfd < 0 || iou->in_flight == 0 || ring_wait_broken) return;
+  for (int i = 0; i < 8000; i++) {
+    uint32_t tail = __atomic_load_n(iou->cqtail, __ATOMIC_ACQUIRE);
+    if (tail - *iou->cqhead >= iou->in_flight) return;
+    usleep(50);
+  }
+  ring_wait_broken = 1;
+}
+static void ring_name(char* name, size_t cap) {
+  struct uv__iou* iou = IOU();
+  uint32_t head = *iou->cqhead, tail = __atomic_load_n(iou->cqtail, __ATOMIC_ACQUIRE);
+  size_t l = (size_t) snprintf(name, cap, "ring=");
+  if (head == tail) { snprintf(name + l, cap - l, "-"); return; }
+  for (uint32_t i = head; i != tail && l + 12 < cap; i++) {
+    struct h_cqe* e = &((struct h_cqe*) iou->cqe)[i & iou->cqmask];
+    l += (size_t) snprintf(name + l, cap - l, "%sr%d", i == head ? "" : ",", ridof((void*) (uintptr_t) e->user_data));
+  }
+}
+
 static int owner_key(int fd, char* name) {
   if (fd == LP->async_io_watcher.fd) { strcpy(name, "async"); return 0; }
+  if (IOU()->ringfd >= 0 && fd == IOU()->ringfd) { ring_name(name, 200); return -1; }   /* first: uv__poll_io_uring then sees exactly the entries found here */
   for (int i = 0; i < nh; i++) if (H[i].state == H_LIVE) {
     int hfd = -1;
     if (H[i].kind == K_POLL) hfd = H[i].fd_a;
@@ -197,6 +234,8 @@ int epoll_pwait(int epfd, struct epoll_event* ev, int maxev, int timeout, const 
   if (!in_run) return (int) syscall(SYS_epoll_pwait, epfd, ev, maxev, 0, NULL, 8);   /* the throw-away loop */
   int done = complete_works();
   await_children();
+  await_ring();
+  drain_sink();
   unsigned long long it = iter_no();
   long k = npolls++;
   for (int i = 0; i < neintr; i++) if (eintr[i].k == k) {
@@ -217,13 +256,13 @@ int epoll_pwait(int epfd, struct epoll_event* ev, int maxev, int timeout, const 
     return 0;
   }
   /* canonical order */
-  int keys[64]; char names[64][16];
+  int keys[64]; static char names[64][200];
   if (n > 64) n = 64;
   for (int i = 0; i < n; i++) keys[i] = owner_key(ev[i].data.fd, names[i]);
   for (int i = 0; i < n; i++) for (int j = i + 1; j < n; j++) if (keys[j] < keys[i]) {
     int t = keys[i]; keys[i] = keys[j]; keys[j] = t;
     struct epoll_event e = ev[i]; ev[i] = ev[j]; ev[j] = e;
-    char nm[16]; strcpy(nm, names[i]); strcpy(names[i], names[j]); strcpy(names[j], nm);
+    char nm[200]; strcpy(nm, names[i]); strcpy(names[i], names[j]); strcpy(names[j], nm);
   }
   printf("env poll iter=%llu timeout=%d clock=%llu done=%d ->", it, timeout, (unsigned long long) vclock_ms, done);
   for (int i = 0; i < n; i++) printf(" %s:%u", names[i], (unsigned) ev[i].events);
@@ -236,6 +275,21 @@ int epoll_pwait(int epfd, struct epoll_event* ev, int maxev, int timeout, const 
   printf("\n");
   return n;
 }
+
+/* ------------------------------------------------------------------ the datagram sink: what really went out */
+static long sink_count;
+static void drain_sink(void) {
+  char b[64];
+  while (syscall(SYS_recvfrom, sink_fd, b, sizeof b, MSG_DONTWAIT, NULL, NULL) >= 0) sink_count++;
+}
+
+/* ------------------------------------------------------------------ connect() answers of the kernel */
+static int fail_connect_errno;   /* next connect() fails synchronously with this errno */
+int connect(int fd, const struct sockaddr* a, socklen_t l) {
+  if (fail_connect_errno) { errno = fail_connect_errno; fail_connect_errno = 0; printf("env connect -> errno %d\n", errno); return -1; }
+  return (int) syscall(SYS_connect, fd, a, l);
+}
+static void* rejected[256]; static int nrejected;   /* requests whose submitting call failed: kept allocated, never registered */
 
 /* ------------------------------------------------------------------ socket() failure injection */
 int socket(int domain, int type, int protocol) {
@@ -389,9 +443,28 @@ static void req_done(const char* kind, int r, int status) {
   printf("endcb\n"); obs();
 }
 static void after_work_cb(uv_work_t* req, int status) { req_done("work", ridof(req), status); }
-static void send_cb(uv_udp_send_t* req, int status) { req_done("udp_send", ridof(req), status); }
+static void send_cb(uv_udp_send_t* req, int status) {
+  drain_sink(); printf("res r%d sink=%ld\n", ridof(req), sink_count);   /* datagrams that reached the sink so far */
+  req_done("udp_send", ridof(req), status);
+}
 static void write_cb(uv_write_t* req, int status) { req_done("write", ridof(req), status); }
-static void connect_cb(uv_connect_t* req, int status) { int r = ridof(req); if (R[r].handle >= 0) H[R[r].handle].conn_pending = 0; req_done("connect", r, status); }
+static void connect_cb(uv_connect_t* req, int status) {
+  int r = ridof(req);
+  if (r < 0) { printf("REJECTED-REQUEST-CALLBACK connect %d\n", status); return; }   /* its uv_tcp_connect() had returned an error */
+  if (R[r].handle >= 0) H[R[r].handle].conn_pending = 0; req_done("connect", r, status);
+}
+static int fs_fd = -1; static char fs_path[300];
+static void fs_cb(uv_fs_t* req) {
+  int r = ridof(req); long res = (long) req->result;
+  if (req->fs_type == UV_FS_OPEN && res >= 0) close((int) res);
+  if (req->fs_type == UV_FS_CLOSE && res == UV_ECANCELED && R[r].aux >= 0) close(R[r].aux);   /* the close never ran */
+  uv_fs_req_cleanup(req);
+  printf("res r%d result=%ld\n", r, res);
+  req_done("fs", r, res == UV_ECANCELED ? UV_ECANCELED : (res < 0 ? (int) res : 0));
+}
+static void gai_cb2(uv_getaddrinfo_t* req, int status, struct addrinfo* res) { if (res) uv_freeaddrinfo(res); req_done("getaddrinfo", ridof(req), status); }
+static void gni_cb2(uv_getnameinfo_t* req, int status, const char* h, const char* sv) { (void) h; (void) sv; req_done("getnameinfo", ridof(req), status); }
+static void rnd_cb2(uv_random_t* req, int status, void* buf, size_t n) { (void) buf; (void) n; req_done("random", ridof(req), status); }
 static void gai_cb(uv_getaddrinfo_t* req, int status, struct addrinfo* res) { (void) req; (void) status; (void) res; }
 static void gni_cb(uv_getnameinfo_t* req, int status, const char* h, const char* sv) { (void) req; (void) status; (void) h; (void) sv; }
 static void rnd_cb(uv_random_t* req, int status, void* buf, size_t n) { (void) req; (void) status; (void) buf; (void) n; }
@@ -611,6 +684,60 @@ static void exec_op(char* text0) {
     } else pool_q[pool_qn++] = me;
     RET(r);
   }
+  if (!strcmp(o, "use_iouring") && nw == 1) {
+    /* environment: can a SQPOLL ring be created at all?  (told to the model; the loop creates its ring lazily) */
+    struct { uint32_t sq_entries, cq_entries, flags, sq_thread_cpu, sq_thread_idle, features, wq_fd, resv[3]; uint64_t off[18]; } prm;
+    memset(&prm, 0, sizeof prm); prm.flags = 2 /* IORING_SETUP_SQPOLL */; prm.sq_thread_idle = 10;
+    int fd = (int) syscall(425 /* io_uring_setup */, 8, &prm);
+    if (fd >= 0) close(fd);
+    printf("env iouring %d\n", fd >= 0);
+    RET(uv_loop_configure(LP, UV_LOOP_USE_IO_URING_SQPOLL));
+  }
+  if (nr < MAXR && ((!strcmp(o, "fs") && (nw == 2 || nw == 3)) || (nw == 1 && (!strcmp(o, "getaddrinfo") || !strcmp(o, "getnameinfo") || !strcmp(o, "random"))))) {
+    /* asynchronous uv_fs_* (thread pool or io_uring, libuv decides), numeric uv_getaddrinfo / uv_getnameinfo, uv_random */
+    static char area[4096]; static uv_buf_t bufs[2048]; static char rbuf[16];
+    int kind, r = 0, fd = -1; void* req; long nb = nw == 3 ? atol(w[2]) : 0;
+    if (!strcmp(o, "fs")) {
+      kind = 6;
+      int rw = !strcmp(w[1], "read") || !strcmp(w[1], "write");
+      if (rw ? (nw != 3 || nb < 1 || nb > 2048) : (nw != 2 || (strcmp(w[1], "open") && strcmp(w[1], "close") && strcmp(w[1], "stat")))) BAD;
+    } else {
+      kind = !strcmp(o, "getaddrinfo") ? 7 : !strcmp(o, "getnameinfo") ? 8 : 9;
+      if (kind != 9 && (pool_running >= 0 || pool_qn > 0)) BAD;   /* slow I/O only into an idle pool (its separate queue is not simulated) */
+    }
+    int c0 = wq_count();
+    int me = nr;
+    R[me].kind = kind; R[me].state = H_LIVE; R[me].handle = -1; R[me].aux = -1;
+    if (kind == 6) {
+      uv_fs_t* q = malloc(sizeof *q); req = q; R[me].ptr = q; nr++;
+      for (long j = 0; j < nb; j++) bufs[j] = uv_buf_init(area + j, 1);
+      if (!strcmp(w[1], "open")) r = uv_fs_open(LP, q, fs_path, O_RDONLY, 0, fs_cb);
+      else if (!strcmp(w[1], "close")) { fd = dup(fs_fd); R[me].aux = fd; r = uv_fs_close(LP, q, fd, fs_cb); }
+      else if (!strcmp(w[1], "stat")) r = uv_fs_stat(LP, q, fs_path, fs_cb);
+      else if (!strcmp(w[1], "read")) r = uv_fs_read(LP, q, fs_fd, bufs, (unsigned) nb, 0, fs_cb);
+      else r = uv_fs_write(LP, q, fs_fd, bufs, (unsigned) nb, 0, fs_cb);
+    } else if (kind == 7) {
+      uv_getaddrinfo_t* q = malloc(sizeof *q); req = q; R[me].ptr = q; nr++;
+      struct addrinfo hints; memset(&hints, 0, sizeof hints); hints.ai_flags = AI_NUMERICHOST; hints.ai_socktype = SOCK_STREAM;
+      r = uv_getaddrinfo(LP, q, gai_cb2, "127.0.0.1", NULL, &hints);
+    } else if (kind == 8) {
+      uv_getnameinfo_t* q = malloc(sizeof *q); req = q; R[me].ptr = q; nr++;
+      struct sockaddr_in a; uv_ip4_addr("127.0.0.1", 80, &a);
+      r = uv_getnameinfo(LP, q, gni_cb2, (struct sockaddr*) &a, NI_NUMERICHOST | NI_NUMERICSERV);
+    } else {
+      uv_random_t* q = malloc(sizeof *q); req = q; R[me].ptr = q; nr++;
+      r = uv_random(LP, q, rbuf, sizeof rbuf, 0, rnd_cb2);
+    }
+    if (r != 0) { fprintf(stderr, "%s submission failed %d\n", o, r); exit(4); }
+    int ring = kind == 6 && ((uv_fs_t*) req)->work_req.done == NULL;   /* uv__iou_get_sqe clears work/done ("pacify uv_cancel") */
+    if (ring) printf("res r%d route=ring\n", me);
+    else if (pool_running < 0) {
+      /* idle worker: the item runs through at once; wait until it sits in loop->wq */
+      for (int j = 0; j < 100000 && wq_count() < c0 + 1; j++) usleep(50);
+      printf("res r%d route=now\n", me);
+    } else { pool_q[pool_qn++] = me; printf("res r%d route=pool\n", me); }
+    RET(r);
+  }
   if (!strcmp(o, "work_null") && nw == 1) {   /* rejected synchronously: no work_cb */
     uv_work_t* req = malloc(sizeof *req); int r = uv_queue_work(LP, req, NULL, after_work_cb); free(req); RET(r);
   }
@@ -697,16 +824,27 @@ static void exec_op(char* text0) {
       && !H[i].bound && !H[i].conn_pending) {
     /* a real connect: to the harness's listener (which never accepts), or `refused`: to a port nobody listens on */
     int refused = nw == 3 && !strcmp(w[2], "refused");
+    /* the kernel answers connect(2) at once: an outright failure (uv_tcp_connect returns it), or ECONNREFUSED (libuv defers it) */
+    int en = nw < 3 ? 0 : !strcmp(w[2], "unreach") ? ENETUNREACH : !strcmp(w[2], "addrnotavail") ? EADDRNOTAVAIL : !strcmp(w[2], "acces") ? EACCES :
+             !strcmp(w[2], "hostunreach") ? EHOSTUNREACH : !strcmp(w[2], "sync_refused") ? ECONNREFUSED : 0;
+    if (nw == 3 && !refused && !en) BAD;
+    if (en && nrejected >= 256) BAD;
     uv_connect_t* req = malloc(sizeof *req);
+    fail_connect_errno = en;
     int r = uv_tcp_connect(req, (uv_tcp_t*) H[i].ptr, (struct sockaddr*) (refused ? &dead_addr : &lsn_addr), connect_cb);
-    if (r != 0) { free(req); RET(r); }
+    fail_connect_errno = 0;
+    if (r != 0) {
+      if (en) { rejected[nrejected++] = req; H[i].bound = 1; keep_dup(i); }   /* the socket exists; the request must be forgotten by libuv */
+      else free(req);
+      RET(r);
+    }
     R[nr].kind = 2; R[nr].state = H_LIVE; R[nr].ptr = req; R[nr].handle = i; nr++;
     H[i].conn_pending = 1; H[i].bound = 2; keep_dup(i);
     RET(0);
   }
   if (!strcmp(o, "cancel") && nw == 2) {
     int r = rnum(w[1]);
-    if (r < 0 || r >= nr || R[r].state != H_LIVE || (R[r].kind != 0 && R[r].kind != 3)) BAD;
+    if (r < 0 || r >= nr || R[r].state != H_LIVE || !POOLKIND(R[r].kind)) BAD;
     int rc = uv_cancel((uv_req_t*) R[r].ptr);
     if (rc == 0) for (int j = 0; j < pool_qn; j++) if (pool_q[j] == r) { memmove(pool_q + j, pool_q + j + 1, (pool_qn - j - 1) * sizeof(int)); pool_qn--; break; }
     RET(rc);
@@ -752,9 +890,12 @@ int main(int argc, char** argv) {
   main_thr = pthread_self(); sem_init(&parked_sem, 0, 0);
   uv_replace_allocator(h_malloc, h_realloc, h_calloc, free);
   setenv("UV_THREADPOOL_SIZE", "1", 1);
+  setenv("UV_USE_IO_URING", "1", 1);   /* lets a loop configured with UV_LOOP_USE_IO_URING_SQPOLL create its ring (linux.c uv__use_io_uring) */
   setvbuf(stdout, NULL, _IOLBF, 1 << 16);   /* line buffered: a sanitizer abort must not lose the log */
   if (argc > 1) snprintf(scratch, sizeof scratch, "%s", argv[1]);
   { char p[200]; snprintf(p, sizeof p, "%s/watch", scratch); mkdir(p, 0700); snprintf(p, sizeof p, "%s/sock", scratch); mkdir(p, 0700); }
+  { static char fill[2048]; memset(fill, 'f', sizeof fill); snprintf(fs_path, sizeof fs_path, "%s/data", scratch);
+    fs_fd = open(fs_path, O_RDWR | O_CREAT | O_CLOEXEC, 0600); if (fs_fd < 0 || write(fs_fd, fill, sizeof fill) < 0) { perror("scratch file"); return 4; } }
   /* process-wide one-time state (signal lock pipe, clock probing) is created by a throw-away loop */
   { uv_loop_t l0; uv_loop_init(&l0); uv_run(&l0, UV_RUN_NOWAIT); uv_loop_close(&l0); }
   sink_fd = socket(AF_INET, SOCK_DGRAM | SOCK_CLOEXEC, 0);
@@ -816,7 +957,8 @@ int main(int argc, char** argv) {
   join_helpers();     /* a parked sender finishes its uv_async_send before the process ends (ASan sees a late touch) */
   for (int i = 0; i < ns; i++) free(S[i].ops);
   for (int i = 0; i < nr; i++) if ((R[i].kind == 3 || R[i].kind == 4) && R[i].ptr) { free(R[i].ptr); R[i].ptr = NULL; }
-  close(sink_fd); close(lsn_fd);
+  close(sink_fd); close(lsn_fd); close(fs_fd);
+  for (int i = 0; i < nrejected; i++) free(rejected[i]);
   if (!loop_closed) { gate_forever = 1; pthread_cond_broadcast(&gc); _exit(0); }   /* handles are still allocated by design */
   return 0;
 }
